@@ -12,7 +12,10 @@ Decided:
   R16.2 ``certs.dummy_cert`` builder obligations on every path (each builder call's result is kept): issuer = ``cacert.subject``;
         ExtendedKeyUsage contains SERVER_AUTH; ``not_valid_before < now < not_valid_after`` when evaluated with the module's
         ``CERT_VALIDITY_OFFSET`` / ``CERT_EXPIRY`` constants; SubjectAlternativeName built from the ``sans`` argument is always added and is
-        critical whenever the subject ends up empty; no common name longer than 64 characters is put into the subject; the
+        critical whenever the subject ends up empty; no common name longer than 64 characters is put into the subject (both decided by
+        *interpreting* dummy_cert's AST (pyint) against a recording model of the cryptography builder in 48 worlds: commonname None / short /
+        63 / 64 / 65 / 300 characters x organization x crl_url x issuer with/without SKI - the subject that is really built is compared with
+        the criticality that is really passed, however either is computed; the path reading is only the fall-back); the
         AuthorityKeyIdentifier comes from the issuer's SubjectKeyIdentifier with the public-key fallback; a random serial number is set; the
         certificate is signed with the ``privkey`` argument, which ``CertStore.get_cert`` binds to the store's CA key next to the CA certificate.
 Not decided: acceptance by a strict X.509 verifier for concrete names (value level; library behaviour of ``cryptography``).
@@ -42,7 +45,8 @@ from ._helpers_B import NotAnAtom
 PROP = "C16"
 REG = {
     "strength": "narrow",
-    "technique": "provenance of every element of the SAN list on all paths (control-dependent sources), semantic evaluation of the CN selection "
+    "technique": "provenance of every element of the SAN list on all paths (control-dependent sources), semantic evaluation of the CN selection, "
+    "AST interpretation of dummy_cert against a recording model of the x509 builder (subject vs. SAN criticality, CN length) "
     "and of validity arithmetic with the module constants, builder-call obligations on all paths of dummy_cert",
     "claim": "the names of a generated certificate come only from SNI / local address / server address / upstream certificate (option-gated), "
     "the SNI or local address is always among them, and dummy_cert always sets issuer, serverAuth EKU, a validity window containing now, the SAN "
@@ -207,6 +211,181 @@ def _days_atom(model, now):
     return atom
 
 
+def _x509_stub():
+    """A recording stand-in for the parts of ``cryptography`` that dummy_cert uses (TRUSTED model of the library: builders are immutable, every
+    setter returns a new builder, NameAttribute refuses a common name longer than ub-common-name = 64, get_extension_for_class raises
+    ExtensionNotFound).  Only used as `trusted module` of the AST interpreter - repository code is never executed."""
+    import types
+
+    class ExtensionNotFound(Exception):
+        pass
+
+    class Named:
+        def __init__(self, *a, **kw):
+            self.args, self.kw = a, kw
+
+        def __repr__(self):
+            return f"{type(self).__name__}{self.args}"
+
+    class GeneralNames(list):
+        pass
+
+    class DNSName(Named):
+        value = property(lambda self: self.args[0])
+
+    class IPAddress(Named):
+        value = property(lambda self: self.args[0])
+
+    class NameAttribute(Named):
+        def __init__(self, oid, value, *a, **kw):
+            if oid == "COMMON_NAME" and len(value) > 64:
+                raise ValueError("Attribute's length must be >= 1 and <= 64")
+            if not value:
+                raise ValueError("Attribute's length must be >= 1")
+            Named.__init__(self, oid, value)
+            self.oid, self.value = oid, value
+
+    class Name(Named):
+        def __init__(self, attrs):
+            Named.__init__(self, tuple(attrs))
+            self.attrs = tuple(attrs)
+
+    class ExtendedKeyUsage(Named):
+        pass
+
+    class SubjectAlternativeName(Named):
+        def __init__(self, names):
+            Named.__init__(self, tuple(names))
+            self.names = tuple(names)
+
+    class SubjectKeyIdentifier(Named):
+        pass
+
+    class AuthorityKeyIdentifier(Named):
+        @classmethod
+        def from_issuer_subject_key_identifier(cls, ski):
+            return cls("ski", ski)
+
+        @classmethod
+        def from_issuer_public_key(cls, pk):
+            return cls("public_key", pk)
+
+    class CRLDistributionPoints(Named):
+        pass
+
+    class DistributionPoint(Named):
+        pass
+
+    class UniformResourceIdentifier(Named):
+        pass
+
+    class Certificate:
+        def __init__(self, fields, key):
+            self.fields, self.signed_with = dict(fields), key
+
+    class CertificateBuilder:
+        def __init__(self, fields=None):
+            self.fields = dict(fields or {"extensions": ()})
+
+        def _with(self, k, v):
+            if k in self.fields:
+                raise ValueError(f"{k} may only be set once")
+            f = dict(self.fields)
+            f[k] = v
+            return CertificateBuilder(f)
+
+        def issuer_name(self, n):
+            return self._with("issuer", n)
+
+        def subject_name(self, n):
+            return self._with("subject", n)
+
+        def public_key(self, k):
+            return self._with("public_key", k)
+
+        def serial_number(self, n):
+            return self._with("serial", n)
+
+        def not_valid_before(self, t):
+            return self._with("not_before", t)
+
+        def not_valid_after(self, t):
+            return self._with("not_after", t)
+
+        def add_extension(self, ext, critical):
+            if any(type(e) is type(ext) for e, _ in self.fields["extensions"]):
+                raise ValueError("This extension has already been set.")
+            f = dict(self.fields)
+            f["extensions"] = f["extensions"] + ((ext, bool(critical)),)
+            return CertificateBuilder(f)
+
+        def sign(self, private_key, algorithm, *a, **kw):
+            for k in ("issuer", "subject", "public_key", "serial", "not_before", "not_after"):
+                if k not in self.fields:
+                    raise ValueError(f"A certificate must have a {k}")
+            return Certificate(self.fields, private_key)
+
+    ns = types.SimpleNamespace
+    oid = lambda *names: ns(**{n: n for n in names})  # noqa: E731
+    x509 = ns(ExtensionNotFound=ExtensionNotFound, GeneralNames=GeneralNames, GeneralName=Named, DNSName=DNSName, IPAddress=IPAddress, NameAttribute=NameAttribute, Name=Name,
+              ExtendedKeyUsage=ExtendedKeyUsage, SubjectAlternativeName=SubjectAlternativeName, SubjectKeyIdentifier=SubjectKeyIdentifier, AuthorityKeyIdentifier=AuthorityKeyIdentifier,
+              CRLDistributionPoints=CRLDistributionPoints, DistributionPoint=DistributionPoint, UniformResourceIdentifier=UniformResourceIdentifier, Certificate=Certificate,
+              CertificateBuilder=CertificateBuilder, random_serial_number=lambda: "random-serial",
+              NameOID=oid("COMMON_NAME", "ORGANIZATION_NAME", "ORGANIZATIONAL_UNIT_NAME", "COUNTRY_NAME", "LOCALITY_NAME", "STATE_OR_PROVINCE_NAME"),
+              ExtendedKeyUsageOID=oid("SERVER_AUTH", "CLIENT_AUTH", "CODE_SIGNING", "ANY_EXTENDED_KEY_USAGE"))
+    x509.oid = ns(NameOID=x509.NameOID, ExtendedKeyUsageOID=x509.ExtendedKeyUsageOID)
+    hashes = ns(SHA256=lambda: "sha256", SHA384=lambda: "sha384", SHA512=lambda: "sha512")
+    pkg = ns(x509=x509, hazmat=ns(primitives=ns(hashes=hashes)))
+
+    def cacert(with_ski):
+        def get_extension_for_class(cls):
+            if cls is SubjectKeyIdentifier and with_ski:
+                return ns(value="issuer-ski")
+            raise ExtensionNotFound()
+
+        return ns(subject=Name([NameAttribute("COMMON_NAME", "mitmproxy CA")]), issuer=Name([NameAttribute("COMMON_NAME", "some root")]), public_key=lambda: "ca-public-key",
+                  extensions=ns(get_extension_for_class=get_extension_for_class))
+
+    return pkg, cacert
+
+
+def _dummy_cert_worlds(ctx):
+    """Interpret dummy_cert's AST (pyint) in every world commonname x organization x crl_url x issuer-with/without-SKI and return
+    [(world, ('cert', subject attrs [(oid, value)], {ext class name: (ext, critical)}, cert) | ('raise', exception name))];
+    None when the function uses a construct the interpreter / library model does not cover (the caller falls back to the path reading)."""
+    import datetime
+    import itertools
+
+    from ..pyint import Interp
+    from ..pyint import Raised
+    from ..pyint import Rec
+
+    pkg, cacert = _x509_stub()
+    out = []
+    names = {"None": None, "short": "example.com", "63 chars": "a" * 59 + ".com", "64 chars": "a" * 60 + ".com", "65 chars": "a" * 61 + ".com", "300 chars": "a" * 296 + ".com"}
+    try:
+        for (cn_k, cn), org, crl, ski in itertools.product(names.items(), (None, "Example Org"), (None, "http://crl.example/ca.crl"), (True, False)):
+            it = Interp(ctx.model, trusted_modules={"cryptography": pkg, "cryptography.x509": pkg.x509, "datetime": datetime, "warnings": __import__("warnings"), "ipaddress": __import__("ipaddress"), "collections": __import__("collections.abc").abc and __import__("collections")})
+            sans = [pkg.x509.DNSName(cn or "192.0.2.1")]
+            world = {"commonname": cn_k, "organization": org, "crl_url": crl, "issuer_has_ski": ski}
+            ctx.cells += 1
+            try:
+                r = it.call(F, "dummy_cert", "ca-private-key", cacert(ski), cn, sans, organization=org, crl_url=crl)
+            except Raised as e:
+                out.append((world, ("raise", e.name), sans))
+                continue
+            cert = getattr(r, "_cert", None) if isinstance(r, Rec) else None
+            if not isinstance(cert, pkg.x509.Certificate):
+                raise AnalysisError("dummy_cert does not return Cert(<signed certificate>) in the interpreted model")
+            attrs = [(a.oid, a.value) for a in cert.fields["subject"].attrs]
+            exts = {type(e).__name__: (e, crit) for e, crit in cert.fields["extensions"]}
+            out.append((world, ("cert", attrs, exts, cert), sans))
+    except AnalysisError as e:
+        ctx.note(f"dummy_cert could not be interpreted ({e}); falling back to the path reading of SAN criticality / CN gate")
+        return None
+    return out
+
+
 def _r16_2(ctx):
     m = ctx.model
     dc = ctx.func(F, "dummy_cert")
@@ -235,6 +414,26 @@ def _r16_2(ctx):
     ctx.require(term, "dummy_cert: no returning path")
     ctx.paths += len(term)
     bad = {k: 0 for k in ("issuer", "eku", "validity", "san", "critical", "aki", "sign", "serial")}
+    worlds = _dummy_cert_worlds(ctx)
+    crit_wit = cn_wit = None
+    if worlds is not None:
+        n_cn = 0
+        for world, res, sans in worlds:
+            if res[0] == "raise":
+                cn_wit = cn_wit or f"dummy_cert raises {res[1]} for {world}"
+                continue
+            _, attrs, exts, cert = res
+            cns = [v for o, v in attrs if o == "COMMON_NAME"]
+            n_cn += bool(cns)
+            if any(len(v) > 64 for v in cns):
+                cn_wit = cn_wit or f"a {len(cns[0])}-character common name is put into the subject for {world}"
+            san_ext = exts.get("SubjectAlternativeName")
+            if san_ext is None or [x for x in san_ext[0].names] != sans:
+                bad["san"] += 1
+            elif not attrs and not san_ext[1]:
+                bad["critical"] += 1
+                crit_wit = crit_wit or f"commonname: {world['commonname']}, organization: {world['organization']!r} -> subject is empty, subjectAltName critical={san_ext[1]}"
+        ctx.require(n_cn or cn_wit, "dummy_cert: no interpreted world puts a common name into the subject (anchor changed)")
     atom = _days_atom(m, 1000.0)
     n_fallback = 0
     for t, how in term:
@@ -265,10 +464,11 @@ def _r16_2(ctx):
             crit = {k.arg: k.value for k in san[0].keywords}.get("critical", san[0].args[1] if len(san[0].args) > 1 else None)
             valid_cn = [e[2] for e in t if e[0] == "cond" and e[1] == "is_valid_commonname"]
             subject_attrs = [e for e in t if e[0] == "callx" and e[1] == "subject.append"]
-            if crit is None or not valid_cn:
-                raise AnalysisError("dummy_cert: SAN criticality / is_valid_commonname shape not modelled")
-            if not subject_attrs and not bool(ceval(crit, {"is_valid_commonname": valid_cn[-1]}, None, "SAN critical")):
-                bad["critical"] += 1
+            if worlds is None:  # legacy path reading, only when the function could not be interpreted
+                if crit is None or not valid_cn:
+                    raise AnalysisError("dummy_cert: SAN criticality / is_valid_commonname shape not modelled")
+                if not subject_attrs and not bool(ceval(crit, {"is_valid_commonname": valid_cn[-1]}, None, "SAN critical")):
+                    bad["critical"] += 1
         akis = [x for x, k in zip(exts, ext_cls) if k == "aki"]
         aki_def = [norm(e[2]) for e in t if e[0] == "assignx" and e[1] == "aki"]
         ski_def = [norm(e[2]) for e in t if e[0] == "assignx" and e[1] == "issuer_ski"]
@@ -302,15 +502,21 @@ def _r16_2(ctx):
         "serial": ("serial_number(random_serial_number())", "no fresh serial number"),
     }
     for k, (construct, why) in msg.items():
-        ctx.check(bad[k] == 0, "R16.2", where, construct, f"{bad[k]} of {len(term)} path(s): {why}", desc=f"{construct} on all {len(term)} paths")
+        extra = f" [{crit_wit}]" if k == "critical" and crit_wit else ""
+        unit = f"{len(worlds)} interpreted world(s)" if worlds is not None and k in ("critical",) else f"{len(term)} path(s)"
+        ctx.check(bad[k] == 0, "R16.2", where, construct, f"{bad[k]} of {unit}: {why}{extra}", desc=f"{construct} on all {len(term)} paths" + (f" / {len(worlds)} interpreted worlds" if worlds is not None and k in ("san", "critical") else ""))
     # common name length gate
-    ivc = local_defs(dc, "is_valid_commonname")
-    ctx.require(len(ivc) == 1, "dummy_cert: is_valid_commonname not assigned exactly once")
-    worlds = {"None": None, "65 chars": "a" * 65, "300 chars": "a" * 300}
-    wrong = [k for k, v in worlds.items() if bool(ceval(ivc[0], {"commonname": v}, None, "is_valid_commonname"))]
-    cn_attr = [c for c in calls_in(dc, "x509.NameAttribute") if any(last_attr(a) == "COMMON_NAME" for a in c.args)]
-    guarded = all(any(isinstance(p, ast.If) and norm(p.test) == "is_valid_commonname" for p in _parents(c)) for c in cn_attr)
-    ctx.check(not wrong and guarded, "R16.2", where, "common name only if present and <= 64 characters", f"a common name is accepted for {wrong} / the COMMON_NAME attribute is not guarded by is_valid_commonname: certificate generation fails or yields an invalid subject for long SNIs", desc="CN only when present and short enough")
+    if worlds is not None:
+        ctx.check(cn_wit is None, "R16.2", where, "common name only if present and <= 64 characters", f"{cn_wit}: certificate generation fails or yields an invalid subject for long SNIs",
+                  desc=f"CN only when present and short enough ({len(worlds)} interpreted worlds: None / 11 / 63 / 64 / 65 / 300 characters)")
+    else:
+        ivc = local_defs(dc, "is_valid_commonname")
+        ctx.require(len(ivc) == 1, "dummy_cert: is_valid_commonname not assigned exactly once")
+        lworlds = {"None": None, "65 chars": "a" * 65, "300 chars": "a" * 300}
+        wrong = [k for k, v in lworlds.items() if bool(ceval(ivc[0], {"commonname": v}, None, "is_valid_commonname"))]
+        cn_attr = [c for c in calls_in(dc, "x509.NameAttribute") if any(last_attr(a) == "COMMON_NAME" for a in c.args)]
+        guarded = all(any(isinstance(p, ast.If) and norm(p.test) == "is_valid_commonname" for p in _parents(c)) for c in cn_attr)
+        ctx.check(not wrong and guarded, "R16.2", where, "common name only if present and <= 64 characters", f"a common name is accepted for {wrong} / the COMMON_NAME attribute is not guarded by is_valid_commonname: certificate generation fails or yields an invalid subject for long SNIs", desc="CN only when present and short enough")
     # constants
     off = ceval(m.const(F, "CERT_VALIDITY_OFFSET"), {}, atom, "CERT_VALIDITY_OFFSET")
     exp = ceval(m.const(F, "CERT_EXPIRY"), {}, atom, "CERT_EXPIRY")
@@ -360,6 +566,9 @@ MUTANTS = [
     Mutant("validity-offset-positive", F, "CERT_VALIDITY_OFFSET = datetime.timedelta(days=-2)", "CERT_VALIDITY_OFFSET = datetime.timedelta(days=2)", "R16.2"),
     Mutant("not-after-in-the-past", F, "    builder = builder.not_valid_after(now + CERT_VALIDITY_OFFSET + CERT_EXPIRY)\n", "    builder = builder.not_valid_after(now + CERT_VALIDITY_OFFSET)\n", "R16.2"),
     Mutant("san-never-critical", F, "        critical=not is_valid_commonname,\n", "        critical=False,\n", "R16.2"),
+    Mutant("san-critical-from-arguments-not-subject", F, "        critical=not is_valid_commonname,\n", "        critical=commonname is None and organization is None,\n", "R16.2"),
+    Mutant("san-critical-only-without-sni-name", F, "        critical=not is_valid_commonname,\n", "        critical=commonname is None,\n", "R16.2"),
+    Mutant("cn-gate-after-the-attribute", F, "    if is_valid_commonname:\n        assert commonname is not None\n", "    if commonname is not None:\n        assert commonname is not None\n", "R16.2"),
     Mutant("cn-length-unchecked", F, "    is_valid_commonname = commonname is not None and len(commonname) < 64\n", "    is_valid_commonname = commonname is not None\n", "R16.2"),
     Mutant("aki-always-from-public-key", F, "        aki = x509.AuthorityKeyIdentifier.from_issuer_subject_key_identifier(issuer_ski)\n", "        aki = x509.AuthorityKeyIdentifier.from_issuer_public_key(cacert.public_key())\n", "R16.2"),
     Mutant("san-from-commonname-only", F, "        x509.SubjectAlternativeName(_fix_legacy_sans(sans)),\n", "        x509.SubjectAlternativeName(_fix_legacy_sans([commonname] if commonname else [])),\n", "R16.2"),
